@@ -256,6 +256,7 @@ func driverSource(dir, name string) (string, error) {
 			fmt.Fprintf(&b, "\t\tapi.%s = func(ctx verifctx.Context, r %s) %s {\n", o[0], hf[0], hf[1])
 			fmt.Fprintf(&b, "\t\t\th.Handler(ctx, %s(nil).Method(), %s(nil).Path(), r.HTTP(), func() (interface{}, error) { return verifreg.CallParse(r) })\n", o[1], o[1])
 			fmt.Fprintf(&b, "\t\t\tif h.Resp != nil {\n\t\t\t\tif v, ok := h.Resp(%q).(%s); ok {\n\t\t\t\t\treturn v\n\t\t\t\t}\n\t\t\t}\n", opn, hf[1])
+			fmt.Fprintf(&b, "\t\t\tif h.RespFor != nil {\n\t\t\t\tif v, ok := h.RespFor(%q, r.HTTP(), func() (interface{}, error) { return verifreg.CallParse(r) }).(%s); ok {\n\t\t\t\t\treturn v\n\t\t\t\t}\n\t\t\t}\n", opn, hf[1])
 			ctor := ""
 			for _, f := range funcs {
 				if f.result == hf[1] && strings.HasPrefix(f.name, "New") {
@@ -505,6 +506,22 @@ func (m *Module) Run(lines []string) ([]string, error) {
 		}
 	}
 	return out, nil
+}
+
+// RunOnce runs a fresh driver process on the lines with extra environment and returns its stdout lines and stderr.
+func (m *Module) RunOnce(lines []string, env []string) ([]string, string, error) {
+	cmd := exec.Command(m.Bin)
+	cmd.Env = append(os.Environ(), env...)
+	cmd.Stdin = strings.NewReader(strings.Join(lines, "\n") + "\n")
+	var so, se bytes.Buffer
+	cmd.Stdout = &so
+	cmd.Stderr = &se
+	cmd.Run()
+	out := strings.Split(strings.TrimRight(so.String(), "\n"), "\n")
+	for len(out) < len(lines) {
+		out = append(out, "CRASH")
+	}
+	return out, se.String(), nil
 }
 
 func (m *Module) Close() {
